@@ -14,7 +14,7 @@ With --check nothing is written; exit 1 if the generated text differs from the f
 
 Normalisation (must match normKeccakf in harness/cmd/c08/main.go): the lines between
 `for i := 0; i < 24; i += 4 {` and the closing `\t}` of keccakF1600, comments and blank lines
-dropped, all whitespace removed inside a line, joined by "\n".
+dropped (also trailing `// …` after a statement), all whitespace removed inside a line, joined by "\n".
 """
 import hashlib, os, re, sys
 
@@ -24,10 +24,17 @@ LOOP = "for i := 0; i < 24; i += 4 {"
 
 
 def loop_lines(src):
+    """loop-body lines; a trailing `// comment` after a statement is cut off (whole-line comments stay:
+    the `// Round N` markers split the body)"""
     lines = src.split("\n")
     start = next(i for i, l in enumerate(lines) if l.strip() == LOOP)
     end = next(i for i in range(start + 1, len(lines)) if lines[i] == "\t}")
-    return lines[start + 1:end]
+    out = []
+    for l in lines[start + 1:end]:
+        if not l.strip().startswith("//") and "//" in l:
+            l = l[:l.index("//")]
+        out.append(l)
+    return out
 
 
 def normalise(src):
@@ -162,7 +169,7 @@ def generate(src):
             continue
         if cur is None:
             raise SystemExit("statement before the first '// Round' marker: " + s)
-        lhs, rhs = s.split(" = ", 1)
+        lhs, rhs = [x.strip() for x in re.split(r"\s*=\s*", s, maxsplit=1)]
         p = P(tokenize(rhs))
         e = p.expr4()
         if p.peek() is not None:
